@@ -379,3 +379,31 @@ pub fn finish(ctx: &Ctx, out: Outcome, started: Instant) -> i32 {
         0
     }
 }
+
+// ---- panic location recorder (for checks that run code under `catch_unwind`) ---------------------
+
+thread_local! {
+    static LAST_PANIC: std::cell::RefCell<Option<String>> = const { std::cell::RefCell::new(None) };
+}
+
+/// Install a panic hook that records "file:line: message" per thread instead of printing.
+pub fn install_panic_recorder() {
+    std::panic::set_hook(Box::new(|info| {
+        let loc = info.location().map(|l| format!("{}:{}", l.file(), l.line())).unwrap_or_else(|| "?".into());
+        let msg = if let Some(s) = info.payload().downcast_ref::<&str>() {
+            s.to_string()
+        } else if let Some(s) = info.payload().downcast_ref::<String>() {
+            s.clone()
+        } else {
+            String::new()
+        };
+        LAST_PANIC.with(|p| *p.borrow_mut() = Some(format!("{loc}: {msg}")));
+        if std::env::var("TCV_PANIC_TRACE").is_ok() {
+            eprintln!("panic at {loc}: {msg}");
+        }
+    }));
+}
+
+pub fn take_last_panic() -> Option<String> {
+    LAST_PANIC.with(|p| p.borrow_mut().take())
+}
